@@ -281,8 +281,55 @@ def corpus_mutant(rng, repo):
 SAFE_MODES = list(range(16))
 
 
+# ---------------------------------------------------------------------------------------------
+# feature combinations: definitions, pending state and the elements that consume them, composed deliberately (the
+# grammar generators above produce these features too, but rarely together)
+# ---------------------------------------------------------------------------------------------
+
+COMBO_DEFS = [
+    "{u} = 'h style='", "{u} = 'x\" y=\"z'", "{u} = 'a b'", "{u} = ''", "{u?} = 'kept'", "{q} = '$$1'", "{q} = 'pre $$1 post $2:dflt$'",
+    "{t} = '<b>$1'", "{t} = '# $1\n\npara $2'", "{t} = 'one\ntwo\n'", "{t} = '\\{u}'", "{--header-ids} = 'true'", "{--} = 'x'",
+    "~ = '<u>|</u>'", "= = '<i class=\"{u}\">||</i>'", "_ = '<em class=\"e\">|</em>'", "`` = '<kbd>||</kbd>'",
+    "/zz/ = '[$1]'", "/(z+)/i = '<s>$$1</s>$1'", "/\\bteh\\b/ = 'the'", "/(a)|(b)/ = '$2$1'",
+    "|code| = '<pre class=\"k\">|</pre> +macros'", "|paragraph| = '<p style=\"a:b\">|</p>'", "|division| = '<section>|</section> -container +spans'",
+    "|quote| = '+macros'", "|indented| = '-specials'", "|html| = '+skip'", "|comment| = '-skip'",
+    ".safeMode = '3'", ".safeMode = '12'", ".htmlReplacement = '<i>{u}</i>'", ".reset = 'true'",
+]
+COMBO_PENDING = ['.k1 k2', '.#i7', '.#I7', '."a:b"', '."c:d;"', '.[title="{u}"]', '.k #j "e:f" [data-x="1"]', '.+skip', '.-macros', '.-spans', '.+macros +spans',
+                 '.-specials', '.+container', '.-container', '.+specials -spans', '.k1\n.k2 #i8', '.-macros\n.+skip']
+COMBO_CONSUMERS = [
+    'para {u} *e* {q|_a_|b} zz &x', '# Head {u} zz', '== Head two ==', '- item {u}\n- {q|*x*}\n\n  attached {t|v}', '. one\n.. two zz\n. three',
+    'term:: def {u}\n\n  ``\n  code {u}\n  ``', '``\ncode {u} *e* <b>\n``', '`` js\ncode\n``', '  indented {u} *e*', '""\nquote {u}\n\n- li\n""',
+    '..\ndiv {u} zz\n\n.k9\ninner para\n..', '.. cls\n{t|a|b}\n..', '<div class="c" style="s:t" id="own">{u}</div>', '<p>raw {q|*x*}</p>\n',
+    '<image:{u}|alt {u}>', '<image:pic.png>', '<<#a{u}>>', '/*\ncomment {u}\n*/', '// line', '{t|x|y}', '{t|x}\nnext line', '{undefined|x}',
+    '> quote para {u}', '>>\nq2\n>>', '[cap {u} http://u.v/ zz](http://h/{u})', '<http://h/|cap *e*> ~w~ =v=', '\\{u} \\*lit* \\<b>',
+    '<joe@foo.com|{u}> ![a {u}](i.png) ^[c](http://x/)', '..\n..', '``\n``', 'a \\\nb', '*a _b* c_ `d*`',
+]
+
+
+def combo_source(rng):
+    """3-9 features: definitions first (sometimes later), pending Block Attributes right before consumers, sometimes with line
+    blocks, lists or blank lines in between."""
+    parts = [rng.choice(COMBO_DEFS) for _ in range(rng.randint(1, 3))]
+    for _ in range(rng.randint(1, 4)):
+        if rng.random() < 0.6:
+            pend = rng.choice(COMBO_PENDING)
+            if rng.random() < 0.25:
+                pend += '\n' + rng.choice(['// c', '', "{u} = 'late'", '# H zz'])
+            parts.append(pend + '\n' + rng.choice(COMBO_CONSUMERS))
+        else:
+            parts.append(rng.choice(COMBO_CONSUMERS))
+        if rng.random() < 0.2:
+            parts.append(rng.choice(COMBO_DEFS))
+    if rng.random() < 0.2:
+        parts.append(rng.choice(COMBO_PENDING))          # left pending at the end
+    return '\n\n'.join(parts) + rng.choice(['', '\n'])
+
+
 def any_source(rng, repo):
     k = rng.random()
+    if k < 0.2:
+        return combo_source(rng)
     if k < 0.55:
         return document(rng)
     if k < 0.75:
